@@ -94,6 +94,29 @@ class CallGraph:
                 m = repo.find_method(self.kinds[f.value.value.attr + "[]"], f.attr)
                 if m is not None:
                     return [m]
+            # self.helper(...).m(...): the helper's return expressions say what the receiver is
+            if isinstance(f.value, ast.Call) and rv and is_self_attr(f.value.func, selfname=rv) and cls is not None:
+                h = repo.find_method(cls, f.value.func.attr)
+                if h is not None:
+                    out = []
+                    for r in ast.walk(h.node):
+                        if isinstance(r, ast.Return) and r.value is not None:
+                            v = r.value
+                            k = None
+                            if isinstance(v, ast.Attribute) and v.attr in self.kinds:
+                                k = self.kinds[v.attr]
+                            elif isinstance(v, ast.Subscript) and isinstance(v.value, ast.Attribute) and v.value.attr + "[]" in self.kinds:
+                                k = self.kinds[v.value.attr + "[]"]
+                            elif isinstance(v, ast.Call) and call_name(v) and "." not in call_name(v):
+                                rr = repo.resolve_name(h.module, call_name(v))
+                                if rr and rr[0] == "class":
+                                    k = rr[1]
+                            if k is not None:
+                                m = repo.find_method(k, f.attr)
+                                if m is not None and m not in out:
+                                    out.append(m)
+                    if out:
+                        return out
             # Class.method(...) / module function through import alias
             d = dotted(f.value)
             if d and "." not in d:
